@@ -81,7 +81,7 @@ def read_tree(root, sub=""):
 
 
 class Run:
-    __slots__ = ("exit", "signal", "stdout", "stderr", "timed_out", "trace", "wall")
+    __slots__ = ("exit", "signal", "stdout", "stderr", "timed_out", "trace", "wall", "cpu")
 
     def __repr__(self):
         return "Run(exit=%r signal=%r timed_out=%r)" % (self.exit, self.signal, self.timed_out)
@@ -109,8 +109,10 @@ def run_breadlog(config_path, check=False, cwd=None, env=None, tmpdir=None, time
     cmd = [binary or BIN, "-c", config_path]
     if check:
         cmd.append("--check")
+    import resource
     r = Run()
     t0 = time.time()
+    ru0 = resource.getrusage(resource.RUSAGE_CHILDREN)
     try:
         p = subprocess.run(cmd, cwd=cwd, env=e, stdout=subprocess.PIPE, stderr=subprocess.PIPE, timeout=timeout)
         r.timed_out = False
@@ -124,6 +126,9 @@ def run_breadlog(config_path, check=False, cwd=None, env=None, tmpdir=None, time
         r.exit, r.signal = None, None
         r.stdout, r.stderr = ex.stdout or b"", ex.stderr or b""
     r.wall = time.time() - t0
+    ru1 = resource.getrusage(resource.RUSAGE_CHILDREN)
+    # CPU seconds of the child (meaningful when the caller runs one child at a time, as the pool workers do); independent of machine load
+    r.cpu = (ru1.ru_utime - ru0.ru_utime) + (ru1.ru_stime - ru0.ru_stime)
     r.trace = parse_trace(shim["log"]) if shim else None
     return r
 
